@@ -7,8 +7,8 @@ CLI:  corr.py [--feat v3|v2|alt] [--suites basic,chain,env,fault,rand] [--seed N
 import os, sys, subprocess, time, hashlib, json
 from concurrent.futures import ThreadPoolExecutor
 sys.path.insert(0, os.path.dirname(os.path.abspath(__file__)))
-import gen
-from panels import PANELS, BY_NAME
+import gen, gen_big
+from panels import PANELS, BY_NAME, ALL_PANELS
 
 ROOT = os.path.dirname(os.path.dirname(os.path.abspath(__file__)))
 WORK = os.path.join(ROOT, 'work')
@@ -80,9 +80,9 @@ def parse_out(text):
 
 KEEP = {
     'wire': None,
-    'timing': ('C', 'CL', 'Z', 'X0', 'X1', 'Xu', 'U', 'S', 'R0', 'R1', 'P', 'T', 'N', 'PN'),
-    'frames+rst': ('C', 'CL', 'Z', 'X0', 'X1', 'Xu', 'U', 'S', 'R0', 'R1', 'N'),
-    'frames': ('C', 'CL', 'Z', 'X0', 'X1', 'Xu', 'U', 'S'),
+    'timing': ('C', 'CL', 'Z', 'X0', 'X1', 'Xu', 'U', 'S', 'R0', 'R1', 'P', 'T', 'N', 'PN', 'W', 'WX'),
+    'frames+rst': ('C', 'CL', 'Z', 'X0', 'X1', 'Xu', 'U', 'S', 'R0', 'R1', 'N', 'W', 'WX'),
+    'frames': ('C', 'CL', 'Z', 'X0', 'X1', 'Xu', 'U', 'S', 'W', 'WX'),
 }
 
 def project(lines, proj):
@@ -171,7 +171,8 @@ def run_suites(panels, feat, suites, seed, hexe, mexe, jobs=16, tag='corr'):
     for p in panels:
         for s in suites:
             rng = gen.Rng(seed * 1000003 + hash_name(p.name + s))
-            cases = gen.suite(p, s, rng)
+            # the 12.48in driver (p.big) has its own generator; gen.py only knows the trait drivers
+            cases = gen_big.suite(s, rng) if getattr(p, 'big', False) else gen.suite(p, s, rng)
             # shard big suites
             n = max(1, min(8, len(cases) // 60))
             for sh_i in range(n):
@@ -227,7 +228,7 @@ def main():
             verbose = True
         else:
             names.append(a)
-    panels = [BY_NAME[n] for n in names] if names else PANELS
+    panels = [BY_NAME[n] for n in names] if names else ALL_PANELS
     t0 = time.time()
     hexe, err = build_harness(feat)
     if not hexe:
